@@ -58,6 +58,8 @@ def gen(rng, tier):
             ver = rng.choice([1, 2])
             yield "sw %s ext %s %d %d %s %s" % (every(600), hx(raw), p, ver, hx(b"anon"), hx(C08.reply(ver, 1, 0, C08.new_chain(rng, s, t0, p, root))))
             yield "sw all ext %s %d %d %s %s" % (hx(raw), p, ver, hx(b"anon"), hx(C08.reply(ver, 1, 0x101, None)))      # the extender refuses
+            same = C08.new_chain(rng, s, t0, s.cal.pub_time, root)
+            yield "sw %s vcal %s - %d %s %s" % (every(600), hx(raw), ver, hx(b"anon"), hx(C08.reply(ver, 1, 0, same)))
         # signing
         alg = rng.choice([1, 4, 5])
         hsh = bytes([alg]) + rng.randbytes(S.DLEN[alg])
@@ -80,6 +82,8 @@ def gen(rng, tier):
     for n, m in ((1, 0), (2, 0), (3, 2), (9, 4), (16, 3), (33, 5)) + (((100, 7),) if big else ()):
         yield "sw all tree %d %d %d" % (rng.choice([1, 4]), n, m)
         yield "sw multi:%d:%d:%d tree 1 %d %d" % (rng.randrange(1 << 30), 30, rng.choice([5, 20, 60]), n, m)
+    for n, m in ((1, 0), (4, 2), (9, 3)):
+        yield "sw %s bsig %d %d %d" % ("all" if (big or n == 1) else "every:%d:%d" % (n, rng.randrange(1, 4)), rng.choice([1, 4]), n, m)
     # publications file and publication strings
     body = PF.MAGIC + PF.header() + b"".join(PF.pub(1400000000 + 86400 * k, S.H(1, b"p%d" % k)) for k in range(5))
     pf = body + PF.sigrec(pki.sign(body))
@@ -108,7 +112,7 @@ CONFIG.rule = ("one line per sweep. The executor compiles the SDK's allocation f
                "fault sets (each request refused with probability 1/density) a NEW context and NEW inputs are set up without faults, the operation "
                "runs under the fault(s), is repeated on the same context and objects without faults, and everything including the context is freed. "
                "Catalogue: integer lists (lst, list), KSI_TLV parse / nested lists / clone / serialize (tlvp, tlv), KSI_TlvElement, signature parse + "
-               "serialize + clone + identity, the asynchronous and the high-availability signing service on a scripted socket, internal verification (verifying and non-verifying signatures, with document hash), aggregation and "
+               "serialize + clone + identity, the asynchronous and the high-availability signing service on a scripted socket, the block signer (masking, metadata, every leaf's signature), calendar-based verification through the file transport, internal verification (verifying and non-verifying signatures, with document hash), aggregation and "
                "extension requests through the file transport, KSI_Signature_signAggregated and KSI_Signature_extendTo with honest and refusing "
                "replies (PDU v1 / v2), tree builder with hash and metadata leaves and every leaf's chain, signature builder, publications file parse "
                "+ lookups + serialize, publication strings, HMAC / hashing. Oracle per experiment (Drv/C19.lean entrySpec, on the implementation's "
